@@ -73,6 +73,14 @@ package banderwagon
 //@ prelude field
 //@ ensures result == (!(p.inner.X == fp_zero && p.inner.Y == fp_zero) && !(other.inner.X == fp_zero && other.inner.Y == fp_zero) && p.inner.X * other.inner.Y == p.inner.Y * other.inner.X)
 
+//@ func Element.Normalize
+//@ props C07
+//@ prelude field
+//@ ensures result != nil <==> old(p.inner.Z) == fp_zero
+//@ ensures result == nil ==> p.inner.X == old(p.inner.X) * fp_inv(old(p.inner.Z)) && p.inner.Y == old(p.inner.Y) * fp_inv(old(p.inner.Z)) && p.inner.Z == fp_one
+//@ ensures result != nil ==> *p == old(*p)
+//@ modifies *p
+
 // ---- map to scalar field (C11)
 
 //@ func Element.mapToBaseField
